@@ -18,7 +18,13 @@ import (
 
 const modulePath = "github.com/quickfixgo/quickfix"
 
+type trustedImpl struct {
+	props []string
+	text  string
+}
+
 type Engine struct {
+	trustedImpls []trustedImpl // implementations of closed-world interface contracts that are stated, not verified
 	repo        string
 	verifDir    string
 	fset        *token.FileSet
